@@ -57,6 +57,28 @@ def jsonable(v):
     return v
 
 
+def nested_contract_calls(path, fn_name):
+    """names of contract-carrying functions reachable by plain-name calls from `fn_name` inside the harness module"""
+    import ast
+
+    tree = ast.parse(open(path).read())
+    defs = {n.name: n for n in tree.body if isinstance(n, ast.FunctionDef)}
+    contract = {k for k, n in defs.items() if ast.get_docstring(n) and "post:" in ast.get_docstring(n)}
+    seen, todo, bad = set(), [fn_name], []
+    while todo:
+        cur = todo.pop()
+        if cur in seen or cur not in defs:
+            continue
+        seen.add(cur)
+        for c in ast.walk(defs[cur]):
+            if isinstance(c, ast.Call) and isinstance(c.func, ast.Name) and c.func.id in defs:
+                if c.func.id in contract and c.func.id != fn_name:
+                    bad.append(c.func.id)
+                else:
+                    todo.append(c.func.id)
+    return sorted(set(bad))
+
+
 def main():
     path, fn_name, timeout = sys.argv[1], sys.argv[2], float(sys.argv[3])
     path_timeout = float(sys.argv[4]) if len(sys.argv) > 4 else None
@@ -79,6 +101,12 @@ def main():
         sys.modules[modname] = mod
         spec.loader.exec_module(mod)
     fn = getattr(mod, fn_name)
+    nested = nested_contract_calls(path, fn_name)
+    if nested:
+        # CrossHair assumes the contracts of called functions: a False from such a callee ends the path silently
+        print("CHRUN=" + json.dumps({"status": "error", "message": f"{fn_name} calls contract function(s) {nested}: their failures would be assumed away",
+                                     "args": None, "state": "ERROR", "traceback": "", "paths": 0, "solver_checks": 0, "solver_s": 0, "wall_s": 0}))
+        return
     stats = collections.Counter()
     opts = AnalysisOptionSet(
         analysis_kind=[AnalysisKind.PEP316],
